@@ -51,8 +51,8 @@ fn expr_attrs(e: &Expr) -> &[Attribute] {
 
 fn is_skipped_macro(m: &Macro) -> bool {
     let n = m.path.segments.last().map(|s| s.ident.to_string()).unwrap_or_default();
-    // debug assertions have no effect on the (non-panicking) value semantics that is translated
-    n == "debug_assert" || n == "debug_assert_eq" || n == "debug_assert_ne"
+    // assertions have no effect on the (non-panicking) value semantics that is translated
+    n == "debug_assert" || n == "debug_assert_eq" || n == "debug_assert_ne" || n == "assert" || n == "assert_eq" || n == "assert_ne"
 }
 
 impl<'a> Tr<'a> {
@@ -979,6 +979,26 @@ impl<'a> Tr<'a> {
     }
 
     fn assign_k(&mut self, left: &Expr, op: Option<&BinOp>, right: &Expr, env: &Env, at: &Expr, k: K) -> R<String> {
+        if let Expr::Index(ix) = strip_parens(left) {
+            // `place[i] = v` on a slice / long array (a list): Rust panics out of range, the list is unchanged here
+            if op.is_some() {
+                return Err(unsupported(at, "compound assignment to an indexed element"));
+            }
+            let (root, path) = self.place(&ix.expr)?;
+            let base = self.pure(&ix.expr, env, None)?;
+            let elem = match &base.ty {
+                Ty::Slice(t) => (**t).clone(),
+                t => return Err(unsupported(at, &format!("assignment to an element of a value of type {} (only slices / long arrays)", t.show()))),
+            };
+            let us = Ty::int(IntTy::Usize);
+            let r = self.pure(right, env, Some(&elem))?;
+            join(&r.ty, &elem).map_err(|m| unsupported(at, &m))?;
+            let i = self.pure(&ix.index, env, Some(&us))?;
+            join(&i.ty, &us).map_err(|m| unsupported(at, &m))?;
+            let newv = format!("(Casts.slice_set {} {} {})", base.s, i.s, r.s);
+            let rest = k(self, unit())?;
+            return self.write_place(&root, &path, env, &newv, &rest, at);
+        }
         let (root, path) = self.place(left)?;
         let var = env.get(&root).cloned().ok_or_else(|| unsupported(at, &format!("assignment to `{}` which is not a local variable", root)))?;
         let cur = self.pure(left, env, None)?;
